@@ -189,9 +189,10 @@ class HdrGen:
         if body_len is not None:
             hl.append(('content-length', str(body_len)))
         out = self._finish(hl, as_bytes)
-        if self.variety and hostmode in ('host', 'both') and rng.random() < self.variety * 0.08:
+        if self.variety and hostmode == 'host' and rng.random() < self.variety * 0.08:
             # a list that mixes str and bytes: the same field once more in the other type, with another value
-            other = auth if hostmode == 'both' else rng.choice(AUTHS + [auth])    # (with :authority present they must agree)
+            # (only without :authority: the library compares the two fields as given, and 'a' != b'a')
+            other = rng.choice(AUTHS + [auth])
             out.append(('host', other) if as_bytes else (b'host', other.encode()))
         return out
 
@@ -637,7 +638,9 @@ class Gen:
     def _max_frame(self, trk):
         # (also the moment to tell the header generator the peer's list-size limit)
         for ep in ('c', 's'):
-            self.hg[ep].limit = self.w.eps[ep].trk.peer.get(C.S_MAX_HEADER_LIST_SIZE)
+            # (before the peer's SETTINGS arrive the application keeps to what an h2 peer announces by default)
+            lim = self.w.eps[ep].trk.peer.get(C.S_MAX_HEADER_LIST_SIZE)
+            self.hg[ep].limit = 65536 if lim is None else lim
         return trk.peer[C.S_MAX_FRAME_SIZE]
 
     def _op_open(self, ep, e, trk, live):
